@@ -24,6 +24,10 @@ CHECKS = {
    text='Coq theorems: isclose (model of the repaired per-term tolerance) is exactly the per-term specification for all operators, symmetric, and independent of other terms and dictionary order (isclose_spec, isclose_sym); bounded theorems by complete enumeration: Majorana merge/sort parity and _majorana_terms_commute agree with the denoted operators (all index sets below 5), is_normal_ordered accepts exactly the fixed points of normal ordering (words of length <= 4, 3 modes). Correspondence: ==, !=, isclose (threshold-straddling pairs, 0-20 shared large terms, both argument orders, shuffled dictionaries, custom tol), MajoranaOperator == / commutes_with, is_hermitian (against the adjoint theorem operator and the verified equivalence checker), is_identity, is_normal_ordered, is_two_body_number_conserving (also implies [op,N]=0 by the verified commutator checker), is_boson_preserving, PolynomialTensor.__eq__.',
    note='Magnitude comparisons are modelled exactly through squares; generated pairs keep a 10% margin from every threshold so float rounding cannot flip a verdict. numpy.isclose asymmetry of MajoranaOperator.__eq__ (rtol*|b|) is below that margin and not exercised. sympy coefficients not modelled.',
    tech='Coq proof (isclose specification) + exhaustive vm_compute theorems + vm_compute correspondence'),
+ 'C05': dict(cat='proof', design='3/C05',
+   text='Coq [B] theorems by complete enumeration: for every n_qubits <= 7 the modelled bravyi_kitaev and bravyi_kitaev_tree ladder images are the Fock ladder operators transported by a signed permutation W of the occupation basis (W|0>=|0>, number operators diagonal), hence CAR and isospectrality with JW; for every n_qubits <= 128 and every mode the literal bit-trick index sets satisfy the Fenwick update/parity/occupation identities. Correspondence complete on n_qubits <= 48 (thorough 128) for the index sets of both transforms; ladder/Majorana images and operators against the model on non-powers of two and n_qubits beyond the mode count; the property itself (encoding_check with W reconstructed from the implementation images) on implementation outputs for n <= 5(6) qubits, both transforms, operators and MajoranaOperators; InteractionOperator path and _seeley_richard_love (all (i,j), n <= 9/16) against the FermionOperator path by the verified Pauli equivalence checker.',
+   note='Bounded theorems state their bounds; the abstract linear-encoding theorem that would lift the set identities (n <= 128) to the operator statement for all n is not formalised. Trusted: kernel+VM, harness serialisation.',
+   tech='exhaustive vm_compute theorems in Coq + model correspondence + verified-checker validation of the encoding property'),
 }
 def main():
     fixes = subprocess.run("git -C /repo log --format=%H --grep='^fix:'", shell=True, capture_output=True, text=True).stdout.split()
